@@ -7,8 +7,6 @@ import YV.Model.XParse
 namespace YV.XP
 open YV YV.X YV.XL
 
-def K : Nat := 24
-
 def NoFuel (r : P PSt) : Prop := r ≠ .error .fuel
 
 /-- under the premise `p` (enough fuel) the result is not a fuel error; a successful result has at most
@@ -57,23 +55,339 @@ theorem OkP_expectCh (p : Prop) (n : Nat) (c : Char) (s : PSt) (h : s.toks.lengt
 
 /-- the offsets: how many calls can follow one another before a token is consumed -/
 structure Inv (f : Nat) : Prop where
-  level : ∀ lvl s, OkP (K * s.toks.length + (6 + (6 - lvl)) ≤ f) s.toks.length (pLevel f lvl s)
-  levelRest : ∀ lvl s, OkP (K * s.toks.length + 1 ≤ f) s.toks.length (pLevelRest f lvl s)
-  unary : ∀ s, OkP (K * s.toks.length + 5 ≤ f) s.toks.length (pUnary f s)
-  unionRest : ∀ s, OkP (K * s.toks.length + 1 ≤ f) s.toks.length (pUnionRest f s)
-  path : ∀ s, OkP (K * s.toks.length + 4 ≤ f) s.toks.length (pPath f s)
-  locPath : ∀ s, OkP (K * s.toks.length + 3 ≤ f) s.toks.length (pLocationPath f s)
-  filterPath : ∀ s, OkP (K * s.toks.length + 3 ≤ f) s.toks.length (pFilterPath f s)
-  primary : ∀ s, OkP (K * s.toks.length + 1 ≤ f) s.toks.length (pPrimary f s)
-  preds : ∀ s, OkP (K * s.toks.length + 1 ≤ f) s.toks.length (pPreds f s)
-  relPath : ∀ s, OkP (K * s.toks.length + 2 ≤ f) s.toks.length (pRelPath f s)
-  step : ∀ s, OkP (K * s.toks.length + 1 ≤ f) s.toks.length (pStep f s)
+  level : ∀ lvl s, OkP (24 * s.toks.length + (6 + (6 - lvl)) ≤ f) s.toks.length (pLevel f lvl s)
+  levelRest : ∀ lvl s, OkP (24 * s.toks.length + 1 ≤ f) s.toks.length (pLevelRest f lvl s)
+  unary : ∀ s, OkP (24 * s.toks.length + 5 ≤ f) s.toks.length (pUnary f s)
+  unionRest : ∀ s, OkP (24 * s.toks.length + 1 ≤ f) s.toks.length (pUnionRest f s)
+  path : ∀ s, OkP (24 * s.toks.length + 4 ≤ f) s.toks.length (pPath f s)
+  locPath : ∀ s, OkP (24 * s.toks.length + 3 ≤ f) s.toks.length (pLocationPath f s)
+  filterPath : ∀ s, OkP (24 * s.toks.length + 3 ≤ f) s.toks.length (pFilterPath f s)
+  primary : ∀ s, OkP (24 * s.toks.length + 1 ≤ f) s.toks.length (pPrimary f s)
+  preds : ∀ s, OkP (24 * s.toks.length + 1 ≤ f) s.toks.length (pPreds f s)
+  relPath : ∀ s, OkP (24 * s.toks.length + 2 ≤ f) s.toks.length (pRelPath f s)
+  step : ∀ s, OkP (24 * s.toks.length + 1 ≤ f) s.toks.length (pStep f s)
 
 theorem OkP_fuel0 (p : Prop) (n : Nat) (hp : ¬ p) : OkP p n (.error .fuel) :=
   ⟨fun h => absurd h hp, fun s' hs => by simp at hs⟩
 
 theorem inv_zero : Inv 0 := by
-  constructor <;> intros <;> (first | exact OkP_fuel0 _ _ (by simp [K]) | skip)
+  constructor <;> intros <;> (first | exact OkP_fuel0 _ _ (by omega) | skip)
   all_goals (simp only [pLevel, pLevelRest, pUnary, pUnionRest, pPath, pLocationPath, pFilterPath, pPrimary, pPreds, pRelPath, pStep]; exact OkP_fuel0 _ _ (by omega))
+
+
+theorem peek_ne_eof_of_eq (s : PSt) (t : Tok) (h : peekTok s = t) (ht : t ≠ .eof) : peekTok s ≠ .eof := by
+  rw [h]; exact ht
+
+/-- the inductive step for the binary levels, unary minus and union -/
+theorem step_level (f : Nat) (ih : Inv f) (lvl : Nat) (s : PSt) :
+    OkP (24 * s.toks.length + (6 + (6 - lvl)) ≤ f + 1) s.toks.length (pLevel (f + 1) lvl s) := by
+  simp only [pLevel]
+  split
+  · exact OkP_weaken _ _ _ _ _ (ih.unary s) (by omega) (Nat.le_refl _)
+  · apply OkP_bind _ _ _ _ (OkP_weaken _ _ _ _ _ (ih.level (lvl + 1) s) (by omega) (Nat.le_refl _))
+    intro a ha
+    exact OkP_weaken _ _ _ _ _ (ih.levelRest lvl a) (by omega) ha
+
+theorem step_levelRest (f : Nat) (ih : Inv f) (lvl : Nat) (s : PSt) :
+    OkP (24 * s.toks.length + 1 ≤ f + 1) s.toks.length (pLevelRest (f + 1) lvl s) := by
+  simp only [pLevelRest]
+  split
+  · exact OkP_pure _ _ _ (Nat.le_refl _)
+  · rename_i i hi
+    have hne : peekTok s ≠ .eof := by
+      intro h; rw [h] at hi
+      rcases lvl with _ | _ | _ | _ | _ | _ | l <;> simp [binOpAt] at hi
+    have hlt := len_adv_lt s hne
+    apply OkP_weaken _ _ _ (adv s).toks.length _ _ id (len_adv s)
+    apply OkP_bind _ _ _ _ (OkP_weaken _ _ _ _ _ (ih.level (lvl + 1) (adv s)) (by omega) (Nat.le_refl _))
+    intro a ha
+    exact OkP_weaken _ _ _ _ _ (ih.levelRest lvl (emit a i)) (by simp only [len_emit]; omega) (by simp only [len_emit]; exact ha)
+
+theorem step_unary (f : Nat) (ih : Inv f) (s : PSt) :
+    OkP (24 * s.toks.length + 5 ≤ f + 1) s.toks.length (pUnary (f + 1) s) := by
+  simp only [pUnary]
+  split
+  · rename_i h
+    have hlt := len_adv_lt s (peek_ne_eof_of_eq s _ h (by simp))
+    apply OkP_bind _ _ _ _ (OkP_weaken _ _ _ _ _ (ih.unary (adv s)) (by omega) (by omega))
+    intro a ha
+    exact OkP_pure _ _ _ (by simp only [len_emit]; exact ha)
+  · apply OkP_bind _ _ _ _ (OkP_weaken _ _ _ _ _ (ih.path s) (by omega) (Nat.le_refl _))
+    intro a ha
+    exact OkP_weaken _ _ _ _ _ (ih.unionRest a) (by omega) ha
+
+theorem step_unionRest (f : Nat) (ih : Inv f) (s : PSt) :
+    OkP (24 * s.toks.length + 1 ≤ f + 1) s.toks.length (pUnionRest (f + 1) s) := by
+  simp only [pUnionRest]
+  split
+  · rename_i h
+    have hlt := len_adv_lt s (peek_ne_eof_of_eq s _ h (by simp))
+    apply OkP_weaken _ _ _ (adv s).toks.length _ _ id (len_adv s)
+    apply OkP_bind _ _ _ _ (OkP_weaken _ _ _ _ _ (ih.path (adv s)) (by omega) (Nat.le_refl _))
+    intro a ha
+    exact OkP_weaken _ _ _ _ _ (ih.unionRest (emit a .union)) (by simp only [len_emit]; omega) (by simp only [len_emit]; exact ha)
+  · exact OkP_pure _ _ _ (Nat.le_refl _)
+
+
+theorem step_preds (f : Nat) (ih : Inv f) (s : PSt) :
+    OkP (24 * s.toks.length + 1 ≤ f + 1) s.toks.length (pPreds (f + 1) s) := by
+  simp only [pPreds]
+  split
+  · rename_i h
+    have hlt := len_adv_lt s (peek_ne_eof_of_eq s _ h (by simp))
+    apply OkP_weaken _ _ _ (adv s).toks.length _ _ id (len_adv s)
+    apply OkP_bind _ _ _ _ (OkP_weaken _ _ _ _ _ (ih.level 0 (emit (adv s) .predStart)) (by simp only [len_emit]; omega) (by simp [len_emit]))
+    intro a ha
+    apply OkP_bind _ _ _ _ (OkP_expectCh _ _ ']' a ha)
+    intro b hb
+    exact OkP_weaken _ _ _ _ _ (ih.preds (emit b .predEnd)) (by simp only [len_emit]; omega) (by simp only [len_emit]; exact hb)
+  · exact OkP_pure _ _ _ (Nat.le_refl _)
+
+/-- the node test of a step (shared by the three ways a step can start) -/
+theorem okP_nodeTest (f : Nat) (ih : Inv f) (p : Prop) (n : Nat) (s : PSt) (hn : s.toks.length ≤ n)
+    (hp : p → 24 * s.toks.length + 1 ≤ f + 1) :
+    OkP p n (match peekTok s with
+      | .nametest px l => do
+        let s := emit (adv s) (.namePush px l)
+        if peekTok s = .ch (chr '[') then do
+          let s ← pPreds f (emit s .predicatesStart)
+          pure (emit s .predicatesEnd)
+        else pure s
+      | _ => synErr s) := by
+  split
+  · rename_i px l h
+    have hlt := len_adv_lt s (peek_ne_eof_of_eq s _ h (by simp))
+    simp only []
+    split
+    · apply OkP_bind _ _ _ _ (OkP_weaken _ _ _ _ _ (ih.preds (emit (emit (adv s) (.namePush px l)) .predicatesStart))
+        (by intro h; have := hp h; simp only [len_emit]; omega) (by simp only [len_emit]; omega))
+      intro a ha
+      exact OkP_pure _ _ _ (by simp only [len_emit]; exact ha)
+    · exact OkP_pure _ _ _ (by simp only [len_emit]; omega)
+  · exact OkP_syn _ _ _
+
+
+theorem step_step (f : Nat) (ih : Inv f) (s : PSt) :
+    OkP (24 * s.toks.length + 1 ≤ f + 1) s.toks.length (pStep (f + 1) s) := by
+  simp only [pStep]
+  split
+  · rename_i c h
+    split
+    · exact OkP_pure _ _ _ (len_adv s)
+    · split
+      · exact okP_nodeTest f ih _ _ _ (by simp only [len_setErr]; exact len_adv s)
+          (by intro hp; have := len_adv s; simp only [len_setErr]; omega)
+      · exact OkP_syn _ _ _
+  · exact OkP_pure _ _ _ (by simp only [len_emit]; exact len_adv s)
+  · split
+    · exact okP_nodeTest f ih _ _ _ (by simp only [len_setErr]; exact Nat.le_trans (len_adv _) (len_adv s))
+        (by intro hp; have := len_adv s; have := len_adv (adv s); simp only [len_setErr]; omega)
+    · exact OkP_syn _ _ _
+  · exact okP_nodeTest f ih _ _ _ (Nat.le_refl _) id
+  · exact OkP_syn _ _ _
+
+
+theorem step_relPath (f : Nat) (ih : Inv f) (s : PSt) :
+    OkP (24 * s.toks.length + 2 ≤ f + 1) s.toks.length (pRelPath (f + 1) s) := by
+  simp only [pRelPath]
+  apply OkP_bind _ _ _ _ (OkP_weaken _ _ _ _ _ (ih.step s) (by omega) (Nat.le_refl _))
+  intro a ha
+  split
+  · rename_i c h
+    split
+    · have hlt := len_adv_lt a (peek_ne_eof_of_eq a _ h (by simp))
+      exact OkP_weaken _ _ _ _ _ (ih.relPath (adv a)) (by omega) (by omega)
+    · exact OkP_pure _ _ _ ha
+  · rename_i h
+    have hlt := len_adv_lt a (peek_ne_eof_of_eq a _ h (by simp))
+    exact OkP_weaken _ _ _ _ _ (ih.relPath (setErr (adv a) "// unsupported")) (by simp only [len_setErr]; omega) (by simp only [len_setErr]; omega)
+  · exact OkP_pure _ _ _ ha
+
+
+theorem len_fin (s : PSt) (c : Prop) [Decidable c] (m : String) (i : PI) :
+    (emit (if c then setErr s m else s) i).toks.length = s.toks.length := by
+  split <;> rfl
+
+theorem step_primary (f : Nat) (ih : Inv f) (s : PSt) :
+    OkP (24 * s.toks.length + 1 ≤ f + 1) s.toks.length (pPrimary (f + 1) s) := by
+  simp only [pPrimary]
+  split
+  · rename_i c h
+    have hlt := len_adv_lt s (peek_ne_eof_of_eq s _ h (by simp))
+    split
+    · split
+      · split
+        · exact OkP_syn _ _ _
+        · exact OkP_pure _ _ _ (Nat.le_trans (len_adv _) (len_adv s))
+      · apply OkP_weaken _ _ _ (adv s).toks.length _ _ id (len_adv s)
+        apply OkP_bind _ _ _ _ (OkP_weaken _ _ _ _ _ (ih.level 0 (adv s)) (by omega) (Nat.le_refl _))
+        intro a ha
+        exact OkP_expectCh _ _ ')' a ha
+    · exact OkP_syn _ _ _
+  · exact OkP_pure _ _ _ (by simp only [len_emit]; exact len_adv s)
+  · exact OkP_pure _ _ _ (by simp only [len_emit]; exact len_adv s)
+  · exact OkP_pure _ _ _ (by simp only [len_setErr]; exact len_adv s)
+  · apply OkP_bind _ _ _ _ (OkP_expectCh _ _ '(' (adv s) (len_adv s))
+    intro a ha
+    exact OkP_expectCh _ _ ')' a ha
+  · rename_i fn h
+    have hlt := len_adv_lt s (peek_ne_eof_of_eq s _ h (by simp))
+    apply OkP_weaken _ _ _ (adv s).toks.length _ _ id (len_adv s)
+    apply OkP_bind _ _ _ _ (OkP_expectCh _ _ '(' (adv s) (Nat.le_refl _))
+    intro a ha
+    split
+    · exact OkP_pure _ _ _ (by rw [len_fin]; exact Nat.le_trans (len_adv a) ha)
+    · apply OkP_bind _ _ _ _ (OkP_weaken _ _ _ _ _ (ih.level 0 a) (by omega) ha)
+      intro b hb
+      split
+      · exact OkP_pure _ _ _ (by rw [len_fin]; exact Nat.le_trans (len_adv b) hb)
+      · apply OkP_bind _ _ _ _ (OkP_expectCh _ _ ',' b hb)
+        intro c hc
+        apply OkP_bind _ _ _ _ (OkP_weaken _ _ _ _ _ (ih.level 0 c) (by omega) hc)
+        intro d hd
+        split
+        · exact OkP_pure _ _ _ (by rw [len_fin]; exact Nat.le_trans (len_adv d) hd)
+        · apply OkP_bind _ _ _ _ (OkP_expectCh _ _ ',' d hd)
+          intro e he
+          apply OkP_bind _ _ _ _ (OkP_weaken _ _ _ _ _ (ih.level 0 e) (by omega) he)
+          intro g hg
+          apply OkP_bind _ _ _ _ (OkP_expectCh _ _ ')' g hg)
+          intro k hk
+          exact OkP_pure _ _ _ (by rw [len_fin]; exact hk)
+  · exact OkP_syn _ _ _
+
+
+theorem step_filterPath (f : Nat) (ih : Inv f) (s : PSt) :
+    OkP (24 * s.toks.length + 3 ≤ f + 1) s.toks.length (pFilterPath (f + 1) s) := by
+  simp only [pFilterPath]
+  apply OkP_bind _ _ _ _ (OkP_weaken _ _ _ _ _ (ih.primary s) (by omega) (Nat.le_refl _))
+  intro a ha
+  apply OkP_bind _ _ _ _ (OkP_weaken _ _ _ _ _ (ih.preds a) (by omega) ha)
+  intro b hb
+  split
+  · rename_i c h
+    split
+    · have := len_adv (emit b .filterExprEnd)
+      apply OkP_bind _ _ _ _ (OkP_weaken _ _ _ _ _ (ih.relPath (adv (emit b .filterExprEnd)))
+        (by simp only [len_emit] at this; omega) (by simp only [len_emit] at this; omega))
+      intro d hd
+      exact OkP_pure _ _ _ (by simp only [len_emit]; exact hd)
+    · exact OkP_pure _ _ _ hb
+  · have := len_adv (emit b .filterExprEnd)
+    apply OkP_bind _ _ _ _ (OkP_weaken _ _ _ _ _ (ih.relPath (setErr (adv (emit b .filterExprEnd)) "// unsupported"))
+      (by simp only [len_emit, len_setErr] at this ⊢; omega) (by simp only [len_emit, len_setErr] at this ⊢; omega))
+    intro d hd
+    exact OkP_pure _ _ _ (by simp only [len_emit]; exact hd)
+  · exact OkP_pure _ _ _ hb
+
+/-- what follows `current()` / `deref(…)`: an optional '/' RelativeLocationPath -/
+theorem okP_optRel (f : Nat) (ih : Inv f) (p : Prop) (n : Nat) (s : PSt) (hn : s.toks.length ≤ n)
+    (hp : p → 24 * s.toks.length + 2 ≤ f) :
+    OkP p n (if peekTok s = .ch (chr '/') then pRelPath f (adv s) else pure s) := by
+  split
+  · have := len_adv s
+    exact OkP_weaken _ _ _ _ _ (ih.relPath (adv s)) (by intro h; have := hp h; omega) (by omega)
+  · exact OkP_pure _ _ _ hn
+
+theorem step_locPath (f : Nat) (ih : Inv f) (s : PSt) :
+    OkP (24 * s.toks.length + 3 ≤ f + 1) s.toks.length (pLocationPath (f + 1) s) := by
+  simp only [pLocationPath]
+  split
+  · rename_i c h
+    split
+    · have := len_adv s
+      split
+      · exact OkP_weaken _ _ _ _ _ (ih.relPath (emit (adv s) .pathRoot)) (by simp only [len_emit]; omega) (by simp only [len_emit]; omega)
+      · exact OkP_pure _ _ _ (by simp only [len_emit]; omega)
+    · split
+      · exact OkP_weaken _ _ _ _ _ (ih.relPath s) (by omega) (Nat.le_refl _)
+      · exact OkP_syn _ _ _
+  · have := len_adv s
+    exact OkP_weaken _ _ _ _ _ (ih.relPath (setErr (adv s) "// unsupported")) (by simp only [len_setErr]; omega) (by simp only [len_setErr]; omega)
+  · exact OkP_weaken _ _ _ _ _ (ih.relPath s) (by omega) (Nat.le_refl _)
+  · exact OkP_weaken _ _ _ _ _ (ih.relPath s) (by omega) (Nat.le_refl _)
+  · exact OkP_weaken _ _ _ _ _ (ih.relPath s) (by omega) (Nat.le_refl _)
+  · apply OkP_bind _ _ _ _ (OkP_expectCh _ _ '(' (adv s) (len_adv s))
+    intro a ha
+    apply OkP_bind _ _ _ _ (OkP_expectCh _ _ ')' a ha)
+    intro b hb
+    exact okP_optRel f ih _ _ (emit b .pathSetCurrent) (by simp only [len_emit]; exact hb) (by simp only [len_emit]; omega)
+  · rename_i h
+    have hlt := len_adv_lt s (peek_ne_eof_of_eq s _ h (by simp))
+    apply OkP_weaken _ _ _ (adv s).toks.length _ _ id (len_adv s)
+    apply OkP_bind _ _ _ _ (OkP_expectCh _ _ '(' (adv s) (Nat.le_refl _))
+    intro a ha
+    apply OkP_bind _ _ _ _ (OkP_weaken _ _ _ _ _ (ih.locPath a) (by omega) ha)
+    intro b hb
+    apply OkP_bind _ _ _ _ (OkP_expectCh _ _ ')' b hb)
+    intro c hc
+    exact okP_optRel f ih _ _ (emit c .deref) (by simp only [len_emit]; exact hc) (by simp only [len_emit]; omega)
+  · exact OkP_syn _ _ _
+
+
+theorem OkP_emitEnd (p : Prop) (n : Nat) (x : P PSt) (i : PI) (hx : OkP p n x) :
+    OkP p n (x >>= fun s => pure (emit s i)) :=
+  OkP_bind _ _ _ _ hx (fun a ha => OkP_pure _ _ _ (by simp only [len_emit]; exact ha))
+
+theorem step_path (f : Nat) (ih : Inv f) (s : PSt) :
+    OkP (24 * s.toks.length + 4 ≤ f + 1) s.toks.length (pPath (f + 1) s) := by
+  have hrel : OkP (24 * s.toks.length + 4 ≤ f + 1) s.toks.length (pRelPath f s >>= fun s => pure (emit s .evalLocPath)) :=
+    OkP_emitEnd _ _ _ _ (OkP_weaken _ _ _ _ _ (ih.relPath s) (by omega) (Nat.le_refl _))
+  have hfil : OkP (24 * s.toks.length + 4 ≤ f + 1) s.toks.length (pFilterPath f s) :=
+    OkP_weaken _ _ _ _ _ (ih.filterPath s) (by omega) (Nat.le_refl _)
+  simp only [pPath]
+  split
+  · rename_i c h
+    split
+    · exact hfil
+    · split
+      · have := len_adv s
+        split
+        · apply OkP_emitEnd
+          exact OkP_weaken _ _ _ _ _ (ih.relPath (emit (adv s) .pathRoot)) (by simp only [len_emit]; omega) (by simp only [len_emit]; omega)
+        · apply OkP_emitEnd
+          exact OkP_pure _ _ _ (by simp only [len_emit]; omega)
+      · split
+        · exact hrel
+        · exact OkP_syn _ _ _
+  · have := len_adv s
+    exact OkP_emitEnd _ _ _ _ (OkP_weaken _ _ _ _ _ (ih.relPath (setErr (adv s) "// unsupported"))
+      (by simp only [len_setErr]; omega) (by simp only [len_setErr]; omega))
+  · exact hrel
+  · exact hrel
+  · exact hrel
+  · apply OkP_bind _ _ _ _ (OkP_expectCh _ _ '(' (adv s) (len_adv s))
+    intro a ha
+    apply OkP_bind _ _ _ _ (OkP_expectCh _ _ ')' a ha)
+    intro b hb
+    have := len_adv (emit b .pathSetCurrent)
+    simp only [len_emit] at this
+    split
+    · apply OkP_emitEnd
+      exact OkP_weaken _ _ _ _ _ (ih.relPath (adv (emit b .pathSetCurrent))) (by omega) (by omega)
+    · apply OkP_emitEnd
+      exact OkP_pure _ _ _ (by simp only [len_emit]; exact hb)
+  · rename_i h
+    have hlt := len_adv_lt s (peek_ne_eof_of_eq s _ h (by simp))
+    apply OkP_weaken _ _ _ (adv s).toks.length _ _ id (len_adv s)
+    apply OkP_bind _ _ _ _ (OkP_expectCh _ _ '(' (adv s) (Nat.le_refl _))
+    intro a ha
+    apply OkP_bind _ _ _ _ (OkP_weaken _ _ _ _ _ (ih.locPath a) (by omega) ha)
+    intro b hb
+    apply OkP_bind _ _ _ _ (OkP_expectCh _ _ ')' b hb)
+    intro c hc
+    have := len_adv (emit c .deref)
+    simp only [len_emit] at this
+    split
+    · apply OkP_emitEnd
+      exact OkP_weaken _ _ _ _ _ (ih.relPath (adv (emit c .deref))) (by omega) (by omega)
+    · apply OkP_emitEnd
+      exact OkP_pure _ _ _ (by simp only [len_emit]; exact hc)
+  · exact hfil
+  · exact hfil
+  · exact hfil
+  · exact hfil
+  · exact hfil
+  · exact OkP_syn _ _ _
 
 end YV.XP
